@@ -111,6 +111,7 @@ type Interp struct {
 	digestApps []digestApp
 	uuids      []*Term
 	expectPanic bool
+	locks       map[string]int // mutexes currently held (lockKey -> depth)
 }
 
 func (it *Interp) newCell(v Value, t types.Type, tag string) *Cell {
